@@ -19,6 +19,9 @@ import (
 // Kinds of writer.
 var Kinds = []string{"fasta", "fastq", "json", "csv"}
 
+// CSVAuto makes Run start the CSV writer in automatic column mode (set by the caller around a Run).
+var CSVAuto bool
+
 // Sink records everything a writer does to its output.
 type Sink struct {
 	mu          sync.Mutex
@@ -149,7 +152,12 @@ func Run(kind string, bios []obiseq.BioSequenceSlice, perm []int, sink io.WriteC
 	case "json":
 		out, err = obiformats.WriteJSON(in, sink, opts...)
 	case "csv":
-		opts = append(opts, obiformats.CSVKey("k"))
+		if CSVAuto {
+			// the columns are taken from the records of the first batch the writer sees
+			opts = append(opts, obiformats.CSVAutoColumn(true))
+		} else {
+			opts = append(opts, obiformats.CSVKey("k"))
+		}
 		out, err = obiformats.WriteCSV(in, sink, opts...)
 	default:
 		return fmt.Errorf("unknown writer kind %s", kind)
